@@ -82,6 +82,7 @@ pub fn dispatch(which: &str, v: &Value, case: &Value) -> Value {
         "c04_prec" => c04_prec(v),
         "c01_bin" => c01_bin(v),
         "c01_flags" => c01_flags(v),
+        "c01_flags_host" => c01_flags_host(v),
         "c01_dom" => c01_dom(v),
         "c01_scheme" => c01_scheme(v),
         "c02_anchor" => c02_anchor(v),
@@ -146,7 +147,12 @@ fn c18_perm(v: &Value) -> Value {
     let (r, f) = (u(&v["required"]) as u8, u(&v["granted"]) as u8);
     let got = PermissionMask::from_bits(r).is_injectable_by(PermissionMask::from_bits(f));
     let want = r & !f == 0;
-    json!({"reproduced": got != want, "got": got, "want": want})
+    // union: PermissionMask has no public accessor; x == a|b  <=>  x and from_bits(a|b) are mutually injectable
+    let mut acc = PermissionMask::from_bits(r);
+    acc |= PermissionMask::from_bits(f);
+    let u1 = PermissionMask::from_bits(r | f);
+    let union_ok = acc.is_injectable_by(u1) && u1.is_injectable_by(acc) && (PermissionMask::from_bits(r) | PermissionMask::from_bits(f)).is_injectable_by(u1) && u1.is_injectable_by(PermissionMask::from_bits(r) | PermissionMask::from_bits(f));
+    json!({"reproduced": got != want || !union_ok, "got": got, "want": want, "union_ok": union_ok})
 }
 /// the separator scan is private; lifted through a `+js(...)` cosmetic rule whose argument list is the string
 fn c18_sep(v: &Value) -> Value {
@@ -325,6 +331,25 @@ fn c01_flags(v: &Value) -> Value {
     }
     let ok = g.len() == 1 && g[0] == want;
     json!({"reproduced": !ok, "mask": m, "groups": g.len(), "descriptive": true})
+}
+fn c01_flags_host(v: &Value) -> Value {
+    let m = (u(&v["m"]) as u32) & !(u(&v["mask_clear"]) as u32);
+    let nf = mk_filter(m, FilterPart::Simple("ab/cd/ef".into()), Some("gh.ij".into()), None);
+    let g = nf.get_tokens();
+    let mask = NetworkFilterMask::from_bits_retain(m);
+    let ra = mask.contains(NetworkFilterMask::IS_RIGHT_ANCHOR);
+    let mut want: Vec<u64> = vec![];
+    if !mask.contains(NetworkFilterMask::IS_COMPLETE_REGEX) {
+        want.extend(if ra { [fast_hash("cd"), fast_hash("ef")] } else { [fast_hash("ab"), fast_hash("cd")] });
+    }
+    if !mask.contains(NetworkFilterMask::IS_HOSTNAME_REGEX) {
+        want.extend([fast_hash("gh"), fast_hash("ij")]);
+    }
+    let (http, https) = (mask.contains(NetworkFilterMask::FROM_HTTP), mask.contains(NetworkFilterMask::FROM_HTTPS));
+    if http && !https { want.push(fast_hash("http")); }
+    if https && !http { want.push(fast_hash("https")); }
+    let ok = g.len() == 1 && g[0] == want;
+    json!({"reproduced": !ok, "mask": m, "tokens": g.first().map(|x| x.len()), "want": want.len()})
 }
 fn c01_dom(v: &Value) -> Value {
     let m = (u(&v["m"]) as u32) & !(u(&v["mask_clear"]) as u32);
@@ -584,7 +609,10 @@ fn c05_fuse(v: &Value) -> Value {
     let p2 = sub(v, "b2", "l2");
     let url = sub(v, "ub", "ul");
     let mkf = |p: &str, empty: bool, tag: bool| mk_filter(m, if empty { FilterPart::Empty } else { FilterPart::Simple(p.to_string()) }, None, if tag { Some("a") } else { None });
-    let f1 = mkf(&p1, b(&v["force_e1"]), b(&v["t1"]));
+    let mut f1 = mkf(&p1, b(&v["force_e1"]), b(&v["t1"]));
+    if b(&v["anyof1"]) && p1.len() == 2 {
+        f1.filter = FilterPart::AnyOf(vec![p1[0..1].to_string(), p1[1..2].to_string()]);
+    }
     let mut f2 = mkf(&p2, b(&v["force_e2"]), b(&v["t2"]));
     if f2.id == f1.id {
         f2.id = f1.id.wrapping_add(1);
